@@ -419,6 +419,8 @@ pub fn build<G: K>(defs: &Defs, env: &Env, e: &Sexp) -> G {
                     let b = build_op_body::<G>(defs, env, args);
                     with_slices(&b, |s| Conde::<U, E, G>::from_conjunctions(s).cast_into())
                 }
+                // the disjunction built through Conde::from_vec from the goals as they are (no conjunction wrapper per clause)
+                "condv" => Conde::<U, E, G>::from_vec(build_list::<G>(defs, env, args)).cast_into(),
                 "mapsum" => {
                     // the public labeling combinator map_sum, nested: (mapsum (x v1 v2 ..) (y w1 ..) ..): x is one of the v's, then y
                     // one of the w's, ..; every level is a goal whose solve returns the (mature) map_sum stream of the next level
